@@ -374,13 +374,24 @@ impl<'tx> TxInner<'tx> {
                 m.tx_id = self.meta.tx_id;
                 m.hash = m.hash_self();
 
-                file.seek(SeekFrom::Start(self.db.inner.pagesize * meta_page_id))?;
-                file.write_all(buf.as_slice())?;
+                let written = file
+                    .seek(SeekFrom::Start(self.db.inner.pagesize * meta_page_id))
+                    .and_then(|_| file.write_all(buf.as_slice()));
+                verif_at!(CommitBeforeSync, true);
+                let synced = written
+                    .and_then(|_| file.flush())
+                    .and_then(|_| file.sync_all());
+                if let Err(err) = synced {
+                    // The new meta page can have reached the file in full even though we
+                    // have to report an error. If it did, every later transaction starts
+                    // from it, so the shared freelist must be the one that matches it.
+                    if self.db.inner.meta()?.tx_id == self.meta.tx_id {
+                        let mut lock = self.db.inner.freelist.lock()?;
+                        *lock = freelist.inner.clone();
+                    }
+                    return Err(err.into());
+                }
             }
-
-            verif_at!(CommitBeforeSync, true);
-            file.flush()?;
-            file.sync_all()?;
 
             verif_at!(CommitBeforePublish, true);
             let mut lock = self.db.inner.freelist.lock()?;
